@@ -12,6 +12,8 @@ CLAIMED = {
          "DESIGN.md 5/C03", "invariant by induction over operations (Coq) + correspondence on generated histories + oracle"),
  "C04": ("Theorems C04_history_uid_hg (counter above every integer-like id after every history), C04_auto_fresh, C04_add_frame / C04_bulk_add_frame (old edges keep position, members, attributes; memberships only gain new ids), C04_explicit_dup_refused. Correspondence compares edge tables, attribute values, warnings and the next automatic id step by step; every provenance of all three classes is probed by the oracle with automatic/explicit additions.",
          "DESIGN.md 5/C04", "invariant + frame theorems (Coq) + correspondence incl. next-id + provenance sweep oracle"),
+ "C05": ("Theorems over the Hypergraph model: C05_error_types (every op ends in Ok/XGIError/IDNotFound; IndexError, TypeError, ValueError are confined to the listed ops), declarative effects C05_remove_node_strong, C05_remove_node_weak (with remove_empty), C05_remove_edge, C05_add_edge (with frame), C05_attr_precedence, C05_swap_preserves (degrees, sizes, ids, attributes). PARTIAL: the effects of merge_duplicate_edges, update, the setters, clear/clear_edges and random_edge_shuffle, and all effects for the directed and simplicial classes, are not stated as theorems; they are covered by the full-snapshot correspondence (all three classes) and, for Hypergraph, by the documentation-level reference oracle on every step.",
+         "DESIGN.md 5/C05", "declarative effect theorems (Coq) + full-snapshot correspondence on histories + documentation-level reference oracle"),
 }
 NOTE = ("trusted: Coq 8.16.1 kernel and vm_compute; no axioms (Print Assumptions: Closed under the global context); "
         "harness generators/serialiser/observation; CPython containers and numeric libraries are environment "
